@@ -362,6 +362,30 @@ func (s *Scn) do(op string) Outcome {
 		s.tickIf()
 		_, err := s.DB.Snapshot(ctx)
 		return Outcome{Err: err}
+	case "LCW":
+		// litestream checkpoint while an application write transaction holds the write lock, the application
+		// committing 1.5 busy-timeouts later (i.e. after litestream's first lock attempt has timed out and while a
+		// second one, if there is one, is waiting). One fixed interleaving, joined before the operation returns.
+		if !s.LSOpen || !s.AppUp || !s.InTx || s.Cfg.BusyTimeoutMS <= 0 || s.Remote != nil {
+			return ill
+		}
+		s.tickIf()
+		commitDone := make(chan error, 1)
+		go func() {
+			time.Sleep(time.Duration(s.Cfg.BusyTimeoutMS) * time.Millisecond * 3 / 2)
+			commitDone <- s.wexec("COMMIT")
+		}()
+		err := s.DB.Checkpoint(ctx, arg)
+		cerr := <-commitDone
+		if cerr == nil {
+			s.InTx = false
+			_ = s.wexec("PRAGMA cache_size = -2000")
+		}
+		s.recordLedger()
+		if err != nil && cerr == nil {
+			return Outcome{} // a checkpoint that gave up on a busy database is not an error of the scenario
+		}
+		return Outcome{Err: cerr}
 	case "QSNAP":
 		// A snapshot REQUESTED while a sync is in flight: the sync is paused (hook) at the point where it has
 		// taken the executor and is about to stage its level-0 file; DB.Snapshot is started and queues behind
